@@ -13,8 +13,8 @@ miss=0
 for id in "${ids[@]}"; do
   prop=${id%%-*}
   git -C "$WT" checkout -q -- .
-  if ! git -C "$WT" apply "seeded/$id/patch.diff" 2>/dev/null; then
-    if ! git -C "$WT" apply --3way "seeded/$id/patch.diff" >/dev/null 2>&1; then echo "$id: PATCH-DOES-NOT-APPLY"; continue; fi
+  if ! git -C "$WT" apply "$PWD/seeded/$id/patch.diff" 2>/dev/null; then
+    if ! git -C "$WT" apply --3way "$PWD/seeded/$id/patch.diff" >/dev/null 2>&1; then echo "$id: PATCH-DOES-NOT-APPLY"; continue; fi
   fi
   out=$(PPSIM_REPO="$WT" ./check "$prop" --no-selftest 2>&1); rc=$?
   nsig=$(echo "$out" | grep -c "^VIOLATION")
